@@ -18,7 +18,7 @@ Extraction "Extract/model.ml"
   builder slice addr tval ttype b_empty store1 load1 preload1 store_all load_all ty_of b_end_cell begin_parse
   b_store_snake s_load_snake b_store_cell b_store_slice b_store_string s_skip s_load_ref s_to_cell
   s_enc s_refs_of tval_ok sop sstep
-  serialize_dict key_bits dict_set parse_hashmap hashmap_parse s_load_dict parse_aug_edge parse_fuel
+  serialize_dict key_bits dict_set parse_hashmap hashmap_parse s_load_dict parse_aug_edge parse_fuel parse_edge_c
   detect_label_type s_label_kind nbitlen
   address address_of_str to_str address_eqb address_pyhash
   vdesc check_block_signatures node_id_short to_sign
